@@ -275,6 +275,7 @@ def run(w, rep, tier):
     rep.rule("C06.table", "every series-table entry is taylor_series_near_zero(u, f) with the default order 6 and threshold 1e-3; the switch is if_else(fabs(x) < eps, series(f), f) of the same f; squared table substitutes sqrt(u)")
     rep.rule("C06.consumers", "each call site of a series-table entry: squared-table entries are even functions of x and are not given a norm; plain-table entries are not given a squared quantity")
     rep.rule("C06.convert", "sympy_to_casadi, which carries both branches of every table entry into CasADi, converts numbers, powers, sums, products and functions faithfully (the C19.leaf / fold / func obligations)")
+    rep.rule("C06.exact", "the closed-form branch of every consumer is the exact function: exp satisfies the exponential ODE, log has the principal closed form, the Jacobians satisfy dexp and J J^-1 = I, the mixed exponential integrates the strapdown equations (obligations of C02 / C03 / C05 / C08 evaluated here)")
     rep.rule("C06.identity", "constant propagation of the identity element / zero vector through exp, log, Ad, Jacobians and conversions: no selected sqrt(0), acos/asin(+-1), division by 0 or atan2(0,0) (each makes the value or its automatic derivative non-finite there)")
     check_table(w, rep)
     check_singularities(w, rep, tier)
@@ -282,5 +283,13 @@ def run(w, rep, tier):
     # are part of "the series branch is the Taylor polynomial of f" (seeded C06-9 expanded integer powers one time too many)
     forward_rules(w, rep, "c19", {"C19.leaf": "C06.convert", "C19.fold": "C06.convert", "C19.func": "C06.convert"}, tier)
     rep.floor("C06.convert", 10)
+    # "within 1e-9 of the exact value": the table rule says both branches of a coefficient are the SAME formula; that the
+    # consumer asked for the RIGHT formula (and combined the coefficients into the exact exp / log / Jacobian / mixed
+    # exponential) is what the closed-form rules of C02, C03, C05 and C08 decide.  A look-alike table key (same value at
+    # 0, different x^2 term: seeded C06-11) satisfies C06.table and C06.consumers and fails here.
+    for mod_, rules_ in (("c02", ("C02.ode", "C02.form")), ("c03", ("C03.quat", "C03.form")), ("c05", ("C05.inverse", "C05.dexp", "C05.Q", "C05.mirror", "C05.blocks")),
+                         ("c08", ("C08.ode", "C08.init", "C08.series"))):
+        forward_rules(w, rep, mod_, {r: "C06.exact" for r in rules_}, "quick")
+    rep.floor("C06.exact", 50)
     rep.undecided_clause("the 1e-9 accuracy bound on [0, 1] rad and the size of the jump at the switch (floating-point error analysis of both branches)")
     rep.undecided_clause("what sympy's series() returns for each formula (the Taylor coefficients themselves)")
